@@ -2,8 +2,9 @@
    Only statements, each closed by `exact <lemma>`, with Print Assumptions beneath.
 
    Universe: Scale/Types.v (ty, value, has_type, wf_ty); specification: Scale/Spec.v (spec_encode,
-   written from the SCALE specification); model of pkg/scale: Scale/Codec.v (encode, decode at a
-   cfg: [current] = the tree with the proposed fixes, [ideal] = the two findings repaired too).
+   written from the SCALE specification); model of pkg/scale: Scale/Codec.v (encode_go = what
+   Marshal does, encode = the same with finding some-enum repaired, decode at a cfg: [current] =
+   the tree, [ideal] = the findings repaired too).
    The model's [encode] lists the entries of a map in ascending key order; Go's encodeMap emits
    them in map iteration order, so for values with a multi-entry map (multi_map v = true) the
    theorems speak of one of the orders Marshal can produce (finding map-order). *)
@@ -12,17 +13,30 @@ From Scale Require Import Compact CompactProofs Types Spec Codec FieldOrder Enco
 From C11 Require Import Model Proofs.
 Local Open Scope N_scope.
 
-(* canonicity: on every well-typed value of every shape the encoder's bytes are the
-   canonical SCALE encoding *)
-Theorem C11_canonical : forall t v, has_type v t = true -> encode t v = spec_encode t v.
+(* canonicity: on every well-typed value of every shape Marshal's bytes are the canonical SCALE
+   encoding — outside the guard of finding some-enum *)
+Theorem C11_canonical_partial : forall t v,
+  has_type v t = true -> some_enum t v = false -> encode_go t v = spec_encode t v.
+Proof. exact canonical_go. Qed.
+Print Assumptions C11_canonical_partial.
+
+(* finding some-enum: Some(x) of an option-of-enum loses its 0x01 byte *)
+Theorem C11_canonical_refuted : exists t v,
+  wf_ty t = true /\ has_type v t = true /\ encode_go t v <> spec_encode t v.
+Proof. exact canonical_go_refuted. Qed.
+Print Assumptions C11_canonical_refuted.
+
+(* with that repaired (encode) the statement holds without exception *)
+Theorem C11_canonical_ideal : forall t v, has_type v t = true -> encode t v = spec_encode t v.
 Proof. exact encode_canonical. Qed.
-Print Assumptions C11_canonical.
+Print Assumptions C11_canonical_ideal.
 
 (* round trip on the current tree: every well-typed value of every well-formed shape, followed by
-   arbitrary bytes r, decodes to itself and leaves r — outside the guard of finding uint-5to7 *)
+   arbitrary bytes r, decodes to itself and leaves r — outside the guards of findings uint-5to7 and
+   some-enum *)
 Theorem C11_roundtrip_partial : forall t v r,
-  wf_ty t = true -> has_type v t = true -> has_uint57 t v = false ->
-  decode_res current t (encode t v ++ r) = Ok (v, r).
+  wf_ty t = true -> has_type v t = true -> has_uint57 t v = false -> some_enum t v = false ->
+  decode_res current t (encode_go t v ++ r) = Ok (v, r).
 Proof. exact roundtrip_current. Qed.
 Print Assumptions C11_roundtrip_partial.
 
@@ -35,7 +49,7 @@ Print Assumptions C11_roundtrip_ideal.
 
 (* finding uint-5to7: on the current tree a Go uint in [2^32, 2^56) does not round-trip *)
 Theorem C11_roundtrip_refuted : exists t v,
-  wf_ty t = true /\ has_type v t = true /\ decode_res current t (encode t v) <> Ok (v, []).
+  wf_ty t = true /\ has_type v t = true /\ decode_res current t (encode_go t v) <> Ok (v, []).
 Proof. exact roundtrip_refuted. Qed.
 Print Assumptions C11_roundtrip_refuted.
 
@@ -65,6 +79,6 @@ Example C11_nonvacuous :
   let v := VList (VCons (VList (VCons (VSome (VN 1073741824)) (VCons VNone VNil)))
             (VCons (VMap (KCons (VN 7) (VBytes [Byte.x01; Byte.x02]) KNil))
             (VCons (VErr (VEnum 3 (VZ (-2)))) (VCons (VN (2 ^ 100)) VNil)))) in
-  wf_ty t = true /\ has_type v t = true /\ has_uint57 t v = false /\ multi_map v = false /\
-  length (encode t v) = 33%nat /\ decode_res current t (encode t v) = Ok (v, []).
+  wf_ty t = true /\ has_type v t = true /\ has_uint57 t v = false /\ some_enum t v = false /\
+  multi_map v = false /\ length (encode_go t v) = 33%nat /\ decode_res current t (encode_go t v) = Ok (v, []).
 Proof. vm_compute. repeat split; reflexivity. Qed.
